@@ -236,7 +236,7 @@ func cyclicTerm(t Term, visited []Term, env *Env) bool {
 	t = env.Resolve(t)
 
 	for _, v := range visited {
-		if t == v {
+		if id(t) == id(v) { // Some of Terms such as lists are not comparable per se.
 			return true
 		}
 	}
